@@ -18,7 +18,12 @@ def gen(rng, max_n=7):
     for i in range(n):
         preds = [j for j in range(i) if rng.random() < 0.4]
         flag = rng.randrange(i) if (i > 0 and rng.random() < 0.25) else None
-        specs.append(dict(preds=preds, flag=flag, usearg=rng.random() < 0.3, const=rng.random() < 0.2,
+        # how each predecessor is used: plain / indexed ([0]) and positional / by keyword
+        uses = {}
+        for k_, j in enumerate(preds):
+            indexable = specs[j]["ret"] == "t" and specs[j]["flag"] is None
+            uses[str(j)] = dict(idx0=indexable and rng.random() < 0.35, kw=("k%d" % k_) if rng.random() < 0.35 else None)
+        specs.append(dict(preds=preds, uses=uses, flag=flag, usearg=rng.random() < 0.3, const=rng.random() < 0.2,
                           ret="z" if rng.random() < 0.15 else "t", tag=None))
     if rng.random() < 0.3 and n >= 2:
         a, b = rng.sample(range(n), 2)
@@ -29,8 +34,8 @@ def gen(rng, max_n=7):
 
 
 def make_node(i, s):
-    def body(*a):
-        return 0 if s["ret"] == "z" else ("n%d" % i,) + tuple(a)
+    def body(*a, **kw):
+        return 0 if s["ret"] == "z" else ("n%d" % i,) + tuple(a) + tuple((k, kw[k]) for k in kw)
 
     body.__name__ = body.__qualname__ = "n%d" % i
     kw = {}
@@ -39,18 +44,33 @@ def make_node(i, s):
     return xn(body, **kw)
 
 
+def use_of(s, j):
+    return (s.get("uses") or {}).get(str(j), dict(idx0=False, kw=None))
+
+
+def pick(v, idx0):
+    """value of a (possibly indexed) use; indexing something that is not a non-empty tuple raises"""
+    return v[0] if idx0 else v
+
+
 def build(sc):
     nodes = [make_node(i, s) for i, s in enumerate(sc["specs"])]
 
     def describe(x, y=7):
         vals = []
         for i, s in enumerate(sc["specs"]):
-            args = [vals[j] for j in s["preds"]]
+            args, kw = [], {}
+            for j in s["preds"]:
+                u = use_of(s, j)
+                ref = vals[j][0] if u["idx0"] else vals[j]
+                if u["kw"]:
+                    kw[u["kw"]] = ref
+                else:
+                    args.append(ref)
             if s["const"]:
                 args.append(7)
             if s["usearg"]:
                 args += [x, y]
-            kw = {}
             if s["flag"] is not None:
                 kw["twz_active"] = vals[s["flag"]]
             vals.append(nodes[i](*args, **kw))
@@ -63,8 +83,12 @@ def build(sc):
 def header(tid, sc):
     out = ["T %s %d" % (tid, sc["n"])]
     for s in sc["specs"]:
+        toks = []
+        for j in s["preds"]:
+            u = use_of(s, j)
+            toks.append(("%s:" % u["kw"] if u["kw"] else "") + str(j) + ("/0" if u["idx0"] else ""))
         out.append("N %s %d %d %s %s" % (s["ret"], int(s["usearg"]), int(s["const"]),
-                                        "-" if s["flag"] is None else s["flag"], " ".join(map(str, s["preds"]))))
+                                        "-" if s["flag"] is None else s["flag"], " ".join(toks)))
     return out
 
 
@@ -101,22 +125,33 @@ def oracle(sc, outs, ins, vals):
         if i in memo:
             return memo[i]
         s = sc["specs"][i]
-        args = [val(j) for j in s["preds"]]        # the composed DAG contains every dependency ...
+        raw = {j: val(j) for j in s["preds"]}        # the composed DAG contains every dependency ...
+        act = True if s["flag"] is None else bool(val(s["flag"]))   # ... including the flag's producer
+        args, kws = [], []
+        if act:
+            for j in s["preds"]:
+                u = use_of(s, j)
+                x = pick(raw[j], u["idx0"])
+                if u["kw"]:
+                    kws.append((u["kw"], x))
+                else:
+                    args.append(x)
         if s["const"]:
             args.append(7)
         if s["usearg"]:
             args += [val(n), val(n + 1)]
-        act = True if s["flag"] is None else bool(val(s["flag"]))   # ... including the flag's producer
         if not act:
             r = None
         else:
-            r = 0 if s["ret"] == "z" else ("n%d" % i,) + tuple(args)
+            r = 0 if s["ret"] == "z" else ("n%d" % i,) + tuple(args) + tuple(kws)
         memo[i] = r
         return r
     try:
         return ("OK", [val(o) for o in outs])
     except KeyError:
         return ("VALUEERROR", "missing-input")
+    except (TypeError, IndexError):
+        return ("RAISES", "indexing a value that cannot be indexed")
 
 
 def run_sync(x):
